@@ -46,6 +46,9 @@ type Up4Gen struct {
 	// direction) when a peer associates, and half of the flows name the application ID instead of carrying the filter
 	UsePfd      bool
 	MinFlows    int  // at least this many flows per session
+	MaxFlows    int  // at most this many flows at establishment (0: no limit)
+	NoSessQer   bool // no session has a session-level QER
+	GbrMode     int  // guaranteed rates of the flows' QERs: 0 as drawn, 1 none, 2 always
 	AlwaysQer   bool // every flow has a QER of its own
 	SessionOnly bool
 	EndMarkers  bool // FAR updates ask for end markers (SNDEM) most of the time
@@ -330,6 +333,13 @@ func (g *Up4Gen) appQer(id uint32) pfcpx.QER {
 		q.ULGBR, q.DLGBR = 0, 0
 	}
 
+	switch g.GbrMode {
+	case 1:
+		q.ULGBR, q.DLGBR = 0, 0
+	case 2:
+		q.ULGBR, q.DLGBR = uint64(1+g.R.Intn(999)), uint64(1+g.R.Intn(999))
+	}
+
 	return q
 }
 
@@ -462,7 +472,7 @@ func (g *Up4Gen) Establish(peer string) bool {
 		s.chooseTeid = true
 	}
 
-	if g.R.Intn(2) == 0 || g.ForceSessQer {
+	if (g.R.Intn(2) == 0 || g.ForceSessQer) && !g.NoSessQer {
 		s.sessQer = 1
 		s.sq = pfcpx.QER{ID: 1, QFI: 0, ULMBR: uint64(2000000 + g.R.Intn(1000000)), DLMBR: uint64(2000000 + g.R.Intn(1000000)), NoGBR: true}
 	}
@@ -475,6 +485,10 @@ func (g *Up4Gen) Establish(peer string) bool {
 
 	if nf < g.MinFlows {
 		nf = g.MinFlows
+	}
+
+	if g.MaxFlows > 0 && nf > g.MaxFlows {
+		nf = g.MaxFlows
 	}
 
 	for i := 0; i < nf; i++ {
@@ -668,6 +682,73 @@ func (g *Up4Gen) ModifyKind(s *usess, kind int) {
 	default:
 		g.Stats["mod"]--
 	}
+}
+
+// UpdateSessQer gives the session-level QER a new aggregate rate: below the rates of the flows' QERs (low) or above them.
+func (g *Up4Gen) UpdateSessQer(s *usess, low bool) {
+	if s.sessQer == 0 {
+		return
+	}
+
+	g.Stats["mod"]++
+
+	nq := s.sq
+	nq.ULMBR, nq.DLMBR = uint64(2000000+g.R.Intn(1000000)), uint64(2000000+g.R.Intn(1000000))
+
+	if low {
+		nq.ULMBR, nq.DLMBR = uint64(100+g.R.Intn(800)), uint64(100+g.R.Intn(800))
+	}
+
+	if accepted(g.W.Mod(s.peer, &SessReq{Hdr: s.up, UQER: []pfcpx.QER{nq}})) {
+		s.sq = nq
+		g.Stats["mod_sessqer_ok"]++
+	}
+}
+
+// UpdateFlowQer updates the QER of the session's first flow that has one: "sym" the same rate in both directions,
+// "asym" different rates, "big" a rate above the session-level QER's, "gate" one of the gates closed.
+func (g *Up4Gen) UpdateFlowQer(s *usess, mode string) {
+	for _, f := range s.flows {
+		if f.qer == 0 {
+			continue
+		}
+
+		g.Stats["mod"]++
+
+		nq := g.appQer(f.qer)
+		nq.ULGate, nq.DLGate = 0, 0
+
+		switch mode {
+		case "sym":
+			nq.ULMBR = uint64(1000 + g.R.Intn(1000000))
+			nq.DLMBR = nq.ULMBR
+		case "asym":
+			nq.ULMBR = uint64(1000 + g.R.Intn(1000000))
+			nq.DLMBR = nq.ULMBR + uint64(1+g.R.Intn(1000))
+		case "big":
+			nq.ULMBR, nq.DLMBR = uint64(4000000+g.R.Intn(1000000)), uint64(4000000+g.R.Intn(1000000))
+		case "gate":
+			if g.R.Intn(2) == 0 {
+				nq.ULGate = 1
+			} else {
+				nq.DLGate = 1
+			}
+		}
+
+		if accepted(g.W.Mod(s.peer, &SessReq{Hdr: s.up, UQER: []pfcpx.QER{nq}})) {
+			f.q = nq
+			g.Stats["mod_qer_ok"]++
+		}
+
+		return
+	}
+}
+
+func (g *Up4Gen) UpdateSessQerAny(s interface{ Live() bool }, low bool) {
+	g.UpdateSessQer(s.(*usess), low)
+}
+func (g *Up4Gen) UpdateFlowQerAny(s interface{ Live() bool }, mode string) {
+	g.UpdateFlowQer(s.(*usess), mode)
 }
 
 // Delete deletes a live session.
